@@ -92,7 +92,7 @@ func signedBy(sig hotstuff.QuorumSignature, id hotstuff.ID) bool {
 
 func c08Sync(p vbase.Params, r *vbase.Result) {
 	r.Rule = "one real replica (subject) + n-1 puppets (n in {4,7}), simple and aggregate timeout rule, subject moved to a start view by genuine certificates, then a PRNG interleaving of timeout messages over views {cur-1..cur+2, cur+5}: " +
-		"genuine, duplicates, far-future, view signature of ANOTHER replica, garbage signature, missing/foreign message signature (aggregate rule), and the subject's own local timeouts; all carry only the genesis QC, so every view " +
+		"genuine, duplicates, far-future, view signature of ANOTHER replica, garbage signature, missing/foreign message signature (aggregate rule), a sender's own timeout under a CLAIMED identity (another replica's or the subject's own - without TLS the identity is request metadata), another replica's genuine timeout relayed under its signer's identity, and the subject's own local timeouts; all carry only the genesis QC, so every view " +
 		"change is timeout-driven; model: per view the set of distinct senders whose message is correctly signed BY THE SENDER; judged after every message: subject leaves a view only if the model holds a quorum for a view >= it, " +
 		"subject has left view v as soon as the model holds a quorum for v, the TC/AggQC it then sends verifies at another replica's real authority and at the ground-truth oracle and names only counted senders; " +
 		"non-trivial: sequence mixing >= 2 views; distinct: the message sequence"
@@ -249,6 +249,35 @@ func c08Sync(p vbase.Params, r *vbase.Result) {
 					}
 				default:
 					valid = true
+				}
+				// without TLS the server takes the sender's identity from request metadata the sender wrote itself: a hostile
+				// sender may claim any identity, also the subject's own. What authenticates a timeout is its signatures.
+				switch rng.Intn(12) {
+				case 0: // its own genuine timeout under another replica's identity
+					claim := hotstuff.ID(rng.Range(1, nn))
+					if rng.Bool() {
+						claim = 1
+					}
+					if claim != sender {
+						tm = c.honestTimeout(sender, tv, si, agg)
+						valid = false
+						r.Obs("timeouts_under_a_claimed_identity", 1)
+						if claim == 1 {
+							r.Obs("timeouts_claiming_the_subjects_identity", 1)
+						}
+						sender = claim
+					}
+				case 1: // another replica's genuine timeout, relayed under that replica's identity
+					if x := hotstuff.ID(2 + (int(sender)-2+1)%(nn-1)); x != sender {
+						tm = c.honestTimeout(x, tv, si, agg)
+						valid = true
+						if c.W.LibraryDefect(tm.ViewSignature, func(hotstuff.ID) []byte { return tv.ToBytes() }) ||
+							(agg && c.W.LibraryDefect(tm.MsgSignature, func(hotstuff.ID) []byte { return tm.ToBytes() })) {
+							valid = false
+						}
+						sender = x
+						r.Obs("genuine_timeouts_relayed_under_their_signers_identity", 1)
+					}
 				}
 				if valid {
 					genuine[tv] = append(genuine[tv], tm)
